@@ -198,6 +198,7 @@ def translate_precompute(repo, gen, write):
         lines = []
         env = {}
         delim = None
+        delim_fn = None
         saved = None
         for s in body:
             if isinstance(s, ast.Assign) and len(s.targets) == 1 and isinstance(s.targets[0], ast.Name):
@@ -214,6 +215,11 @@ def translate_precompute(repo, gen, write):
                     continue
                 if nm == "delimiter":
                     delim = ast.unparse(v)
+                    # `<a> if output.split('.')[-1] == '<ext>' else <b>` also as a function of the output file's extension
+                    if isinstance(v, ast.IfExp) and isinstance(v.body, ast.Constant) and isinstance(v.orelse, ast.Constant) \
+                            and isinstance(v.test, ast.Compare) and len(v.test.ops) == 1 and isinstance(v.test.ops[0], ast.Eq) \
+                            and ast.unparse(v.test.left) == "output.split('.')[-1]" and isinstance(v.test.comparators[0], ast.Constant):
+                        delim_fn = (v.test.comparators[0].value, v.body.value, v.orelse.value)
                     continue
                 fail(s, f"assignment {ast.unparse(s)[:60]}")
             if isinstance(s, ast.For):
@@ -273,6 +279,10 @@ def translate_precompute(repo, gen, write):
         out += ["  " + ln for ln in lines] + [f"  pure {saved}", "",
                 "/-- the `delimiter` expression, as written -/",
                 "def delimiterExpr : String := " + '"' + delim.replace("\\", "\\\\").replace('"', '\\"') + '"', ""]
+        if delim_fn is not None:
+            q = lambda t: '"' + str(t).replace("\\", "\\\\").replace('"', '\\"') + '"'
+            out += ["/-- the delimiter as a function of the extension of `output` (the text after its last dot) -/",
+                    f"def delimiterFor (ext : String) : String := if ext == {q(delim_fn[0])} then {q(delim_fn[1])} else {q(delim_fn[2])}", ""]
         body_ = out
         err = None
     except Untranslatable as ex:
